@@ -8,6 +8,9 @@ e  a trajectory is kept only if neither the proximity nor the energy guard fired
 
 b (added)  real eigenpairs are returned in eigen-solver order (order-abstract argsort at representative multipliers)
 e (added)  options given to Manifold.compute reach _run_compute under their own names; default guards are not vacuous
+
+e (round 3)  the measured drift is max|C_i - C_0|/|C_0| of the Jacobi constant (exact on-axis histories: up, down, mixed, negative, vanishing reference)
+b-pipeline (round 3)  two manifold services never hold the same (stateful) stability pipeline object
 """
 from __future__ import annotations
 
